@@ -342,6 +342,13 @@ def c06_oracle(ws, real):
             if me != run["def"] and me not in refs:
                 bad.append((p, o, "identifier under the cursor %s is neither the target %s nor one of the references" % (
                     json.dumps(me), json.dumps(run["def"]))))
+    # by-construction expectations (symgen.expect_cases): go-to-definition at a marked use lands on the marked declaration
+    for p, o, exp in ws.get("expect", []):
+        a = at(p, o)
+        got = a["def"] if a else None
+        if got != exp:
+            bad.append((p, o, "go-to-definition must answer %s (the declaration, by construction: field of a parent listed after a "
+                               "revisited ancestor) but answers %s" % (json.dumps(exp), json.dumps(got))))
     return bad
 
 
